@@ -230,3 +230,15 @@ func main() {
 func itoa(i int) string { return strconv.Itoa(i) }
 
 func stdB64(bz []byte) string { return base64.StdEncoding.EncodeToString(bz) }
+
+func (r *Rng) perm(n int) []int {
+	p := make([]int, n)
+	for i := range p {
+		p[i] = i
+	}
+	for i := n - 1; i > 0; i-- {
+		j := r.intn(i + 1)
+		p[i], p[j] = p[j], p[i]
+	}
+	return p
+}
